@@ -331,6 +331,631 @@ Proof.
     + cbn [flats map]. rewrite app_nil_r. cbn [join]. exact (Hb Hcb H1).
     + assert (Hn : b' :: l' <> []) by discriminate.
       rewrite join_cons by (apply map_ne; exact Hn).
-      rewrite join_app by (apply map_ne; [apply flat_ne | apply flats_ne; exact Hn]).
+      rewrite join_app by (apply map_ne; first [apply flat_ne | apply flats_ne; exact Hn]).
       rewrite (Hb Hcb H1), (Hl m Hcl H2). reflexivity.
+Qed.
+
+(* ================================================================== *)
+(* 4. facts about the generated opcode table and the alias table (re-checked on every build) *)
+
+Definition nws (c : ascii) : bool := negb (is_ws c).
+Definition clean (s : string) : bool := negb (is_empty s) && all_chars nws s.
+
+Lemma names_clean : forallb (fun p => clean (fst p)) opcode_table = true.
+Proof. vm_compute. reflexivity. Qed.
+Lemma names_not_alias : forallb (fun p => match alias_of (fst p) with None => true | Some _ => false end) opcode_table = true.
+Proof. vm_compute. reflexivity. Qed.
+Lemma names_lookup :
+  forallb (fun p => match opcode_of_name (fst p) with Some v => (v =? snd p)%N | None => false end) opcode_table = true.
+Proof. vm_compute. reflexivity. Qed.
+(* no opcode name is a valid even-length hex string *)
+Lemma names_not_hex : forallb (fun p => match bytes_of_hex (fst p) with None => true | Some _ => false end) opcode_table = true.
+Proof. vm_compute. reflexivity. Qed.
+Lemma alias_short : forallb (fun p => Nat.leb (slength (fst p)) 2) alias_table = true.
+Proof. vm_compute. reflexivity. Qed.
+Lemma alias_names_ok : map fst alias_table = alias_names.
+Proof. reflexivity. Qed.
+
+Lemma opcode_name_in c n : opcode_name c = Some n -> In (n, c) opcode_table.
+Proof. apply lookup_name_in. Qed.
+
+Lemma is_opcode_name c : is_opcode c = true -> exists n, opcode_name c = Some n.
+Proof. unfold is_opcode. destruct (opcode_name c); [eauto | discriminate]. Qed.
+
+(* ------------------------------------------------------------------ *)
+(* trim on text without whitespace *)
+Lemma ltrim_clean s : all_chars nws s = true -> ltrim s = s.
+Proof.
+  destruct s as [|c r]; [reflexivity|]. cbn [all_chars ltrim]. intros H. apply andb_true_iff in H. destruct H as [H _].
+  unfold nws in H. apply negb_true_iff in H. rewrite H. reflexivity.
+Qed.
+
+Lemma rtrim_clean s : all_chars nws s = true -> rtrim s = s.
+Proof.
+  induction s as [|c r IH]; [reflexivity|]. cbn [all_chars]. intros H. apply andb_true_iff in H. destruct H as [Hc Hr].
+  cbn [rtrim]. rewrite (IH Hr). destruct r; [|reflexivity].
+  unfold nws in Hc. apply negb_true_iff in Hc. rewrite Hc. reflexivity.
+Qed.
+
+Lemma trim_clean s : all_chars nws s = true -> trim s = s.
+Proof. intros H. unfold trim. rewrite (ltrim_clean s H). apply rtrim_clean; exact H. Qed.
+
+(* ------------------------------------------------------------------ *)
+(* the rendering of one element, and parsing it back *)
+Definition leaf_wf (b : bit) : bool :=
+  match b with BOp c => is_opcode c | BIf _ _ _ => false | _ => true end.
+
+(* everything the round trip needs of a flat element *)
+Definition leaf_good (b : bit) : bool := leaf_wf b && minimal_leaf b && not_coinbase b && not_numeric_push b.
+
+Lemma hex_clean d : all_chars nws (hex_of_bytes d) = true.
+Proof. apply all_chars_hex_of_bytes. apply forall_lt16; reflexivity. Qed.
+
+Lemma render_clean b : leaf_good b = true -> clean (bit_asm false b) = true.
+Proof.
+  unfold leaf_good. intros H. split_andb.
+  destruct b as [c|d|c d|c p q|d]; try discriminate.
+  - cbn [bit_asm]. destruct (c =? OP_0)%N; [reflexivity|].
+    cbn [leaf_wf] in *. match goal with H : is_opcode c = true |- _ => destruct (is_opcode_name c H) as [n Hn] end.
+    unfold op_text. rewrite Hn. apply opcode_name_in in Hn.
+    pose proof names_clean as T. rewrite forallb_forall in T. exact (T _ Hn).
+  - cbn [bit_asm]. unfold clean. rewrite hex_clean, andb_true_r.
+    match goal with H : minimal_leaf (BPush d) = true |- _ => cbn [minimal_leaf] in H end.
+    destruct d; [cbn in *; discriminate | reflexivity].
+  - cbn [bit_asm]. unfold clean. rewrite hex_clean, andb_true_r.
+    match goal with H : minimal_leaf (BPushData c d) = true |- _ => cbn [minimal_leaf] in H end.
+    destruct d; [cbn [length] in *; lia | reflexivity].
+Qed.
+
+Lemma alias_hex_none d : d <> [] -> numeric_looking d = false -> alias_of (hex_of_bytes d) = None.
+Proof.
+  intros Hd Hn. destruct (alias_of (hex_of_bytes d)) as [v|] eqn:E; [|reflexivity]. exfalso.
+  pose proof (lookup_val_in _ _ _ E) as Hin.
+  pose proof alias_short as T. rewrite forallb_forall in T. specialize (T _ Hin). cbn [fst] in T.
+  apply Nat.leb_le in T. rewrite hex_of_bytes_length in T.
+  destruct d as [|b [|b' d']]; [congruence | | cbn [length] in T; lia].
+  clear T Hin Hd. destruct b; vm_compute in E; try discriminate; vm_compute in Hn; discriminate.
+Qed.
+
+Lemma name_hex_none d : opcode_of_name (hex_of_bytes d) = None.
+Proof.
+  destruct (opcode_of_name (hex_of_bytes d)) as [v|] eqn:E; [|reflexivity]. exfalso.
+  pose proof (lookup_val_in _ _ _ E) as Hin.
+  pose proof names_not_hex as T. rewrite forallb_forall in T. specialize (T _ Hin). cbn [fst] in T.
+  rewrite bytes_of_hex_of_bytes in T. discriminate.
+Qed.
+
+Lemma map_token_clean u : all_chars nws u = true ->
+  map_token u = match alias_of u with
+                | Some c => Ok (BOp c)
+                | None => match opcode_of_name u with
+                          | Some c => Ok (BOp c)
+                          | None => match bytes_of_hex u with Some d => Ok (push_bit d) | None => Err end
+                          end
+                end.
+Proof. intros H. unfold map_token. rewrite (trim_clean u H). reflexivity. Qed.
+
+Lemma map_token_render b : leaf_good b = true -> map_token (bit_asm false b) = Ok b.
+Proof.
+  intros Hg. pose proof (render_clean b Hg) as Hc. unfold clean in Hc. apply andb_true_iff in Hc. destruct Hc as [_ Hc].
+  rewrite (map_token_clean _ Hc). clear Hc.
+  unfold leaf_good in Hg. split_andb.
+  destruct b as [c|d|c d|c p q|d]; try discriminate.
+  - cbn [bit_asm]. destruct (c =? OP_0)%N eqn:Hz.
+    + apply N.eqb_eq in Hz. subst c. reflexivity.
+    + cbn [leaf_wf] in *. match goal with H : is_opcode c = true |- _ => destruct (is_opcode_name c H) as [n Hn] end.
+      unfold op_text. rewrite Hn. apply opcode_name_in in Hn.
+      pose proof names_not_alias as T1. rewrite forallb_forall in T1. specialize (T1 _ Hn). cbn [fst] in T1.
+      destruct (alias_of n); [discriminate|].
+      pose proof names_lookup as T2. rewrite forallb_forall in T2. specialize (T2 _ Hn). cbn [fst snd] in T2.
+      destruct (opcode_of_name n) as [v|]; [|discriminate]. apply N.eqb_eq in T2. subst v. reflexivity.
+  - cbn [bit_asm].
+    match goal with H : minimal_leaf (BPush d) = true |- _ => cbn [minimal_leaf] in H; rename H into Hm end.
+    match goal with H : not_numeric_push (BPush d) = true |- _ => cbn [not_numeric_push] in H; apply negb_true_iff in H; rename H into Hn end.
+    rewrite alias_hex_none; [| destruct d; [cbn in Hm; discriminate | discriminate] | exact Hn].
+    rewrite name_hex_none, bytes_of_hex_of_bytes.
+    unfold push_bit, get_pushdata_opcode. replace (N.of_nat (length d) <=? 75)%N with true by lia. reflexivity.
+  - cbn [bit_asm].
+    match goal with H : minimal_leaf (BPushData c d) = true |- _ => cbn [minimal_leaf] in H; rename H into Hm end.
+    rewrite alias_hex_none.
+    + rewrite name_hex_none, bytes_of_hex_of_bytes.
+      unfold push_bit, get_pushdata_opcode, OP_PUSHDATA1, OP_PUSHDATA2, OP_PUSHDATA4.
+      set (n := N.of_nat (length d)) in *.
+      destruct (n <=? 75)%N eqn:E1; [lia|].
+      destruct (n <=? 255)%N eqn:E2; [replace c with 76%N by lia; reflexivity|].
+      destruct (n <=? 65535)%N eqn:E3; [replace c with 77%N by lia; reflexivity|].
+      replace c with 78%N by lia; reflexivity.
+    + destruct d; [cbn [length] in Hm; lia | discriminate].
+    + destruct d as [|b [|b' d']]; try reflexivity. cbn [length] in Hm. lia.
+Qed.
+
+Lemma map_tokens_render l : forallb leaf_good l = true -> map_tokens (map (bit_asm false) l) = Ok l.
+Proof.
+  induction l as [|b l IH]; [reflexivity|]. cbn [forallb map map_tokens]. intros H. apply andb_true_iff in H. destruct H as [Hb Hl].
+  rewrite (map_token_render b Hb). cbn [bind]. rewrite (IH Hl). reflexivity.
+Qed.
+
+(* ================================================================== *)
+(* 5. split_whitespace *)
+Lemma ws_split_ne s : ws_split s <> [].
+Proof. destruct s as [|c r]; cbn [ws_split]; [discriminate|]. destruct (is_ws c); [discriminate|]. destruct (ws_split r); discriminate. Qed.
+
+Lemma ws_split_clean_app t y :
+  all_chars nws t = true ->
+  ws_split (t +++ y) = match ws_split y with h :: tl => (t +++ h) :: tl | [] => [t] end.
+Proof.
+  induction t as [|c t IH]; cbn [String.append all_chars]; intros H.
+  - destruct (ws_split y) eqn:E; [exfalso; exact (ws_split_ne y E) | reflexivity].
+  - apply andb_true_iff in H. destruct H as [Hc Ht]. cbn [ws_split].
+    unfold nws in Hc. apply negb_true_iff in Hc. rewrite Hc, (IH Ht).
+    destruct (ws_split y) eqn:E; [exfalso; exact (ws_split_ne y E) | reflexivity].
+Qed.
+
+Lemma asm_tokens_ws c y : is_ws c = true -> asm_tokens (String c y) = asm_tokens y.
+Proof. intros H. unfold asm_tokens, split_whitespace. cbn [ws_split]. rewrite H. reflexivity. Qed.
+
+Definition starts_ws (y : string) : Prop := match y with EmptyString => True | String c _ => is_ws c = true end.
+
+Lemma asm_tokens_clean_app t y : clean t = true -> starts_ws y -> asm_tokens (t +++ y) = t :: asm_tokens y.
+Proof.
+  unfold clean. intros H Hy. apply andb_true_iff in H. destruct H as [Hne Hc].
+  unfold asm_tokens, split_whitespace. rewrite (ws_split_clean_app t y Hc).
+  destruct y as [|c y'].
+  - cbn [ws_split filter]. rewrite sapp_nil_r. rewrite Hne. reflexivity.
+  - cbn in Hy. cbn [ws_split]. rewrite Hy. cbn [filter is_empty negb]. rewrite sapp_nil_r, Hne. reflexivity.
+Qed.
+
+Lemma asm_tokens_join toks : forallb clean toks = true -> asm_tokens (join " " toks) = toks.
+Proof.
+  induction toks as [|t r IH]; [reflexivity|]. cbn [forallb]. intros H. apply andb_true_iff in H. destruct H as [Ht Hr].
+  destruct r as [|t' r'].
+  - cbn [join]. rewrite <- (sapp_nil_r t) at 1. rewrite asm_tokens_clean_app by (auto; exact I). reflexivity.
+  - rewrite join_cons by discriminate.
+    rewrite asm_tokens_clean_app by (auto; reflexivity).
+    change (" " +++ join " " (t' :: r')) with (String " " (join " " (t' :: r'))).
+    rewrite asm_tokens_ws by reflexivity. rewrite (IH Hr). reflexivity.
+Qed.
+
+(* `pad_ws` is defined in Spec/AsmSpec.v; `padded_ok` is `padded` over the model's `is_ws` *)
+Fixpoint padded_ok (first : bool) (l : list (string * string)) : bool :=
+  match l with
+  | [] => true
+  | (w, t) :: r => all_chars is_ws w && (first || negb (is_empty w)) && clean t && padded_ok false r
+  end.
+
+Lemma asm_tokens_ws_app w y : all_chars is_ws w = true -> asm_tokens (w +++ y) = asm_tokens y.
+Proof.
+  induction w as [|c w IH]; [reflexivity|]. cbn [all_chars String.append]. intros H. apply andb_true_iff in H. destruct H as [Hc Hw].
+  rewrite asm_tokens_ws by exact Hc. exact (IH Hw).
+Qed.
+
+Lemma pad_starts_ws l e : padded_ok false l = true -> all_chars is_ws e = true -> starts_ws (pad_ws l e).
+Proof.
+  destruct l as [|[w t] r]; cbn [pad_ws padded_ok]; intros H He.
+  - destruct e as [|c e']; [exact I|]. cbn in *. apply andb_true_iff in He. tauto.
+  - split_andb. destruct w as [|c w']; [discriminate|]. cbn in *. split_andb. assumption.
+Qed.
+
+Lemma asm_tokens_pad l e : forall first, padded_ok first l = true -> all_chars is_ws e = true ->
+  asm_tokens (pad_ws l e) = map snd l.
+Proof.
+  induction l as [|[w t] r IH]; intros first H He.
+  - cbn [pad_ws map]. rewrite <- (sapp_nil_r e). rewrite asm_tokens_ws_app by exact He. reflexivity.
+  - cbn [pad_ws map snd]. cbn [padded_ok] in H. split_andb.
+    rewrite asm_tokens_ws_app by assumption.
+    rewrite asm_tokens_clean_app by (try assumption; apply pad_starts_ws; assumption).
+    erewrite IH by eassumption. reflexivity.
+Qed.
+
+(* ================================================================== *)
+(* 6. round trip *)
+
+Lemma forallb_map {A B} (f : A -> B) (P : B -> bool) l : forallb P (map f l) = forallb (fun x => P (f x)) l.
+Proof. induction l as [|x l IH]; cbn [map forallb]; [reflexivity | rewrite IH; reflexivity]. Qed.
+
+Lemma forallb_impl {A} (P Q : A -> bool) l : (forall x, P x = true -> Q x = true) -> forallb P l = true -> forallb Q l = true.
+Proof.
+  intros H. induction l as [|x l IH]; cbn [forallb]; [reflexivity|]. intros E. apply andb_true_iff in E. destruct E as [E1 E2].
+  rewrite (H x E1), (IH E2). reflexivity.
+Qed.
+
+Lemma clean_ne_render b : clean (bit_asm false b) = true -> ne_render false b = true.
+Proof. unfold clean, ne_render. intros H. apply andb_true_iff in H. tauto. Qed.
+
+Lemma roundtrip_flat s :
+  canonical s = true -> forallb leaf_good (flats s) = true -> from_asm (to_asm false s) = Ok s.
+Proof.
+  intros Hc Hg.
+  assert (Hcl : forallb (fun b => clean (bit_asm false b)) (flats s) = true)
+    by (eapply forallb_impl; [apply render_clean | exact Hg]).
+  assert (Hne : forallb (ne_render false) (flats s) = true)
+    by (eapply forallb_impl; [apply clean_ne_render | exact Hcl]).
+  rewrite (render_flat false s Top Hc Hne).
+  unfold from_asm. rewrite asm_tokens_join by (rewrite forallb_map; exact Hcl).
+  rewrite (map_tokens_render _ Hg). cbn [bind]. apply nest_top_unflatten. exact Hc.
+Qed.
+
+Lemma wf_bit_if c p q : wf_bit (BIf c p q) = is_if c && wf_bits p && match q with None => true | Some q' => wf_bits q' end.
+Proof. reflexivity. Qed.
+
+Lemma wf_leaves : forall s, wf_bits s = true -> forallb (all_leaves leaf_wf) s = true.
+Proof.
+  apply (bits_ind'
+    (fun b => wf_bit b = true -> all_leaves leaf_wf b = true)
+    (fun l => wf_bits l = true -> forallb (all_leaves leaf_wf) l = true)).
+  - intros c H. exact H.
+  - reflexivity.
+  - reflexivity.
+  - reflexivity.
+  - intros c p IHp H. rewrite wf_bit_if in H. rewrite all_leaves_if. split_andb. rewrite IHp by assumption. reflexivity.
+  - intros c p q IHp IHq H. rewrite wf_bit_if in H. rewrite all_leaves_if. split_andb. rewrite IHp, IHq by assumption. reflexivity.
+  - reflexivity.
+  - intros b l Hb Hl H. cbn [wf_bits] in H. cbn [forallb]. split_andb. rewrite Hb, Hl by assumption. reflexivity.
+Qed.
+
+Lemma is_if_opcode c : is_if c = true -> is_opcode c = true.
+Proof.
+  unfold is_if. intros H.
+  assert (c = 99 \/ c = 100 \/ c = 101 \/ c = 102)%N as [-> | [-> | [-> | ->]]] by lia; vm_compute; reflexivity.
+Qed.
+
+Lemma leaf_good_flats s :
+  canonical s = true -> forallb (all_leaves leaf_wf) s = true -> no_coinbase s = true -> minimal_pushes s = true ->
+  ambiguous_numeric_push s = false -> forallb leaf_good (flats s) = true.
+Proof.
+  intros Hc Hw Hn Hm Ha. unfold ambiguous_numeric_push in Ha. apply negb_false_iff in Ha.
+  assert (F1 : forallb leaf_wf (flats s) = true)
+    by (apply (leaves_flats leaf_wf) with (m := Top); try assumption; [exact is_if_opcode | reflexivity | reflexivity]).
+  assert (F2 : forallb not_coinbase (flats s) = true)
+    by (apply (leaves_flats not_coinbase) with (m := Top); try assumption; reflexivity).
+  assert (F3 : forallb minimal_leaf (flats s) = true)
+    by (apply (leaves_flats minimal_leaf) with (m := Top); try assumption; reflexivity).
+  assert (F4 : forallb not_numeric_push (flats s) = true)
+    by (apply (leaves_flats not_numeric_push) with (m := Top); try assumption; reflexivity).
+  rewrite forallb_forall in *. intros b Hb. unfold leaf_good.
+  rewrite (F1 b Hb), (F2 b Hb), (F3 b Hb), (F4 b Hb). reflexivity.
+Qed.
+
+(* C17 (1): the tree itself comes back *)
+Lemma asm_roundtrip_tree s :
+  canonical s = true -> wf_bits s = true -> no_coinbase s = true -> minimal_pushes s = true ->
+  ambiguous_numeric_push s = false -> from_asm (to_asm false s) = Ok s.
+Proof.
+  intros Hc Hw Hn Hm Ha. apply roundtrip_flat; [exact Hc|].
+  apply leaf_good_flats; try assumption. apply wf_leaves; exact Hw.
+Qed.
+
+Lemma asm_roundtrip s :
+  canonical s = true -> wf_bits s = true -> no_coinbase s = true -> minimal_pushes s = true ->
+  ambiguous_numeric_push s = false ->
+  exists s', from_asm (to_asm false s) = Ok s' /\ to_bytes s' = to_bytes s.
+Proof. intros. exists s. split; [apply asm_roundtrip_tree; assumption | reflexivity]. Qed.
+
+(* ------------------------------------------------------------------ *)
+(* what from_bytes returns *)
+Definition parsed_leaf (b : bit) : bool :=
+  match b with
+  | BOp c => is_opcode c
+  | BPush d => (N.of_nat (length d) <=? 75)%N
+  | BPushData c d => (c =? 76)%N || (c =? 77)%N || (c =? 78)%N
+  | _ => false
+  end.
+
+Lemma tokenize_leaves : forall f bs ts, tokenize f bs = Ok ts -> forallb parsed_leaf ts = true.
+Proof.
+  induction f as [|f IH]; intros bs ts H; (destruct bs as [|b r]; [inv H; reflexivity|]); [discriminate|].
+  cbn [tokenize] in H.
+  destruct (negb (b2n b =? 0)%N && (b2n b <? 76)%N) eqn:Hd.
+  - destruct (tokenize f _) as [rest| |] eqn:E; cbn [bind] in H; try discriminate. inv H.
+    cbn [forallb parsed_leaf]. rewrite (IH _ _ E), andb_true_r.
+    pose proof (firstn_le_length (N.to_nat (b2n b)) r). lia.
+  - destruct (is_opcode (b2n b)) eqn:Hop; [|discriminate].
+    destruct ((b2n b =? 76)%N || (b2n b =? 77)%N || (b2n b =? 78)%N) eqn:Hpd.
+    + destruct (read_le _ r) as [[len r1]|]; [|discriminate].
+      destruct (read_exactN _ r1) as [[d r2]|]; [|discriminate].
+      destruct (tokenize f r2) as [rest| |] eqn:E; cbn [bind] in H; try discriminate. inv H.
+      cbn [forallb parsed_leaf]. rewrite Hpd, (IH _ _ E). reflexivity.
+    + destruct (tokenize f r) as [rest| |] eqn:E; cbn [bind] in H; try discriminate. inv H.
+      cbn [forallb parsed_leaf]. rewrite Hop, (IH _ _ E). reflexivity.
+Qed.
+
+Lemma from_bytes_facts bs s :
+  from_bytes bs = Ok s -> canonical s = true /\ forallb parsed_leaf (flats s) = true.
+Proof.
+  unfold from_bytes. intros H.
+  destruct (tokenize (length bs) bs) as [ts| |] eqn:E; cbn [bind] in H; try discriminate.
+  pose proof (tokenize_flat _ _ _ E) as Hfl.
+  split; [exact (nest_top_canonical _ _ Hfl H)|].
+  rewrite (nest_top_flats _ _ Hfl H). exact (tokenize_leaves _ _ _ E).
+Qed.
+
+Lemma parsed_leaf_wf b : parsed_leaf b = true -> leaf_wf b = true /\ not_coinbase b = true.
+Proof. destruct b; cbn; intros H; try discriminate; auto. Qed.
+
+(* C17 (1) for everything the byte parser returns *)
+Lemma asm_roundtrip_parsed bs s :
+  from_bytes bs = Ok s -> minimal_pushes s = true -> ambiguous_numeric_push s = false ->
+  from_asm (to_asm false s) = Ok s.
+Proof.
+  intros H Hm Ha. destruct (from_bytes_facts bs s H) as [Hc Hp].
+  apply roundtrip_flat; [exact Hc|].
+  apply leaf_good_flats; try assumption.
+  - apply flats_leaves. eapply forallb_impl; [|exact Hp]. intros b Hb. apply parsed_leaf_wf in Hb. tauto.
+  - apply flats_leaves. eapply forallb_impl; [|exact Hp]. intros b Hb. apply parsed_leaf_wf in Hb. tauto.
+Qed.
+
+
+(* ------------------------------------------------------------------ *)
+(* C17 (5): the class is a genuine failure *)
+Lemma refuted_on_class :
+  let s := [BPush [x11]] in
+  from_bytes [x01; x11] = Ok s /\ canonical s = true /\ wf_bits s = true /\ no_coinbase s = true /\ minimal_pushes s = true /\
+  ambiguous_numeric_push s = true /\ to_asm false s = "11" /\
+  forall s', from_asm (to_asm false s) = Ok s' -> to_bytes s' <> to_bytes s.
+Proof.
+  cbv zeta. repeat split; try (vm_compute; reflexivity).
+  intros s' H. vm_compute in H. inv H. vm_compute. discriminate.
+Qed.
+
+(* ================================================================== *)
+(* 7. which tokens are accepted, and what they denote *)
+
+Lemma alias_dec_alias u : alias_of u = dec_alias u.
+Proof.
+  destruct (alias_of u) as [c|] eqn:E.
+  - apply lookup_val_in in E. cbn in E.
+    repeat (destruct E as [E|E]; [inv E; reflexivity|]). contradiction.
+  - destruct (dec_alias u) as [c|] eqn:D; [exfalso|reflexivity].
+    unfold dec_alias in D.
+    destruct (Nat.leb (slength u) 2); [|discriminate].
+    destruct (N_of_dec u) as [k|]; [|discriminate].
+    destruct (k <=? 16)%N eqn:K; [|discriminate].
+    destruct (String.eqb (dec_of_N k) u) eqn:S; [|discriminate].
+    apply String.eqb_eq in S. subst u. clear D.
+    assert (k = 0 \/ k = 1 \/ k = 2 \/ k = 3 \/ k = 4 \/ k = 5 \/ k = 6 \/ k = 7 \/ k = 8 \/ k = 9 \/ k = 10 \/
+            k = 11 \/ k = 12 \/ k = 13 \/ k = 14 \/ k = 15 \/ k = 16)%N as C by lia.
+    repeat (destruct C as [->|C]; [vm_compute in E; discriminate|]). subst k. vm_compute in E. discriminate.
+Qed.
+
+Lemma map_token_no_panic t : map_token t <> Panic.
+Proof.
+  unfold map_token. destruct (alias_of (trim t)); [discriminate|].
+  destruct (opcode_of_name (trim t)); [discriminate|]. destruct (bytes_of_hex (trim t)); discriminate.
+Qed.
+
+Lemma asm_accepts_exactly t : (exists b, map_token t = Ok b) <-> accepted_token (trim t).
+Proof.
+  unfold map_token, accepted_token. set (u := trim t). split.
+  - intros [b H].
+    destruct (alias_of u) as [c|] eqn:E1.
+    { left. rewrite <- alias_names_ok. apply lookup_val_in in E1. apply (in_map fst) in E1. exact E1. }
+    destruct (opcode_of_name u) as [c|] eqn:E2.
+    { right; left. apply lookup_val_in in E2. apply (in_map fst) in E2. exact E2. }
+    right; right. destruct (bytes_of_hex u) as [d|] eqn:E3; [|discriminate].
+    unfold even_hex. apply bytes_of_hex_accepts. eauto.
+  - intros [H | [H | H]].
+    + rewrite <- alias_names_ok in H. apply lookup_val_complete in H. destruct H as [v H].
+      unfold alias_of. rewrite H. eauto.
+    + destruct (alias_of u); [eauto|].
+      apply lookup_val_complete in H. destruct H as [v H]. unfold opcode_of_name. rewrite H. eauto.
+    + destruct (alias_of u); [eauto|]. destruct (opcode_of_name u); [eauto|].
+      unfold even_hex in H. apply bytes_of_hex_accepts in H. destruct H as [d H]. rewrite H. eauto.
+Qed.
+
+Lemma push_class_direct n : (n <= 75)%N -> push_class n = n.
+Proof.
+  intros H. unfold push_class, minimal_prefix. replace (n <=? 75)%N with true by lia.
+  apply b2n_n2b. lia.
+Qed.
+
+Lemma tok_of_push_bit d : tok_of_bit (push_bit d) = TPush (push_class (N.of_nat (length d))) d.
+Proof.
+  unfold push_bit, get_pushdata_opcode, push_class, minimal_prefix, OP_PUSHDATA1, OP_PUSHDATA2, OP_PUSHDATA4.
+  set (n := N.of_nat (length d)).
+  destruct (n <=? 75)%N eqn:E1.
+  - cbn [tok_of_bit]. fold n. rewrite b2n_n2b by lia. reflexivity.
+  - destruct (n <=? 255)%N; [reflexivity|]. destruct (n <=? 65535)%N; reflexivity.
+Qed.
+
+(* every accepted token denotes what the specification says; every other token is rejected *)
+Lemma asm_token_denotes t :
+  match spec_token (trim t) with
+  | Some tk => exists b, map_token t = Ok b /\ tok_of_bit b = tk
+  | None => map_token t = Err
+  end.
+Proof.
+  unfold map_token, spec_token. rewrite <- alias_dec_alias.
+  destruct (alias_of (trim t)); [eauto|].
+  destruct (opcode_of_name (trim t)); [eauto|].
+  destruct (bytes_of_hex (trim t)) as [d|]; [|reflexivity].
+  eexists; split; [reflexivity | apply tok_of_push_bit].
+Qed.
+
+(* ================================================================== *)
+(* 8. whitespace *)
+Lemma is_ws_ws_char c : is_ws c = ws_char c.
+Proof. destruct c as [[] [] [] [] [] [] [] []]; reflexivity. Qed.
+
+Lemma ws_split_pieces s : ws_split s = ws_pieces s.
+Proof.
+  induction s as [|c r IH]; [reflexivity|]. cbn [ws_split ws_pieces]. rewrite is_ws_ws_char, IH. reflexivity.
+Qed.
+
+(* the tokens the library reads are the maximal runs of non-whitespace characters *)
+Lemma asm_tokens_spec s : asm_tokens s = ws_tokens s.
+Proof.
+  unfold asm_tokens, split_whitespace, ws_tokens. rewrite ws_split_pieces.
+  apply filter_ext. intros [|c r]; reflexivity.
+Qed.
+
+Lemma padded_clean l : forall first, padded_ok first l = true -> forallb clean (map snd l) = true.
+Proof.
+  induction l as [|[w t] r IH]; intros first H; [reflexivity|].
+  cbn [padded_ok] in H. cbn [map snd forallb]. split_andb.
+  match goal with H : clean t = true |- _ => rewrite H end. eapply IH; eassumption.
+Qed.
+
+(* C17 (3): arbitrary whitespace before, between and after the tokens is the same as single spaces *)
+Lemma whitespace_ignored l e :
+  padded_ok true l = true -> all_chars is_ws e = true ->
+  from_asm (pad_ws l e) = from_asm (join " " (map snd l)).
+Proof.
+  intros H He. unfold from_asm.
+  rewrite (asm_tokens_pad l e true H He).
+  rewrite (asm_tokens_join _ (padded_clean l true H)). reflexivity.
+Qed.
+
+(* ================================================================== *)
+(* 9. the renderings of a parsed script, stated on the independent flat tokens *)
+
+Lemma ext_render_ne b : parsed_leaf b = true -> ne_render true b = true.
+Proof.
+  unfold ne_render. destruct b as [c|d|c d|c p q|d]; cbn [parsed_leaf]; intros H; try discriminate.
+  - cbn [bit_asm]. destruct (c =? OP_0)%N; [reflexivity|].
+    destruct (is_opcode_name c H) as [n Hn]. unfold op_text. rewrite Hn. apply opcode_name_in in Hn.
+    pose proof names_clean as T. rewrite forallb_forall in T. specialize (T _ Hn). unfold clean in T. cbn [fst] in T.
+    apply andb_true_iff in T. tauto.
+  - reflexivity.
+  - cbn [bit_asm]. destruct (op_text c +++ " " +++ dec_of_N (N.of_nat (length d)) +++ " " +++ hex_of_bytes d) eqn:E; [|reflexivity].
+    exfalso. revert E. apply sapp_cons_ne.
+Qed.
+
+Lemma ext_tok_render b : parsed_leaf b = true -> bit_asm true b = ext_tok (tok_of_bit b).
+Proof.
+  destruct b as [c|d|c d|c p q|d]; cbn [parsed_leaf]; intros H; try discriminate.
+  - cbn [bit_asm tok_of_bit ext_tok]. destruct (c =? OP_0)%N eqn:E; [apply N.eqb_eq in E; subst c|]; reflexivity.
+  - cbn [bit_asm tok_of_bit ext_tok]. unfold push_word. rewrite H. reflexivity.
+  - cbn [bit_asm tok_of_bit ext_tok]. unfold push_word. replace (c <=? 75)%N with false by lia. reflexivity.
+Qed.
+
+Lemma tokenize_spec_flatten bs s ts :
+  from_bytes bs = Ok s -> tokenize_spec bs = TokOk ts -> ts = flatten s.
+Proof.
+  intros H Ht.
+  assert (Hn : truncated_tail bs = false) by (unfold truncated_tail; rewrite Ht; reflexivity).
+  destruct (script_roundtrip bs s H Hn) as [_ E]. rewrite Ht in E. inv E. reflexivity.
+Qed.
+
+(* C17 (4): the extended rendering names, for every push, its opcode and its decimal length *)
+Lemma extended_states_push bs s ts :
+  from_bytes bs = Ok s -> tokenize_spec bs = TokOk ts -> to_asm true s = render_ext ts.
+Proof.
+  intros H Ht. rewrite (tokenize_spec_flatten bs s ts H Ht).
+  destruct (from_bytes_facts bs s H) as [Hc Hp].
+  rewrite (render_flat true s Top Hc) by (eapply forallb_impl; [apply ext_render_ne | exact Hp]).
+  unfold render_ext, flatten. rewrite map_map. f_equal.
+  apply map_ext_in. intros b Hb. apply ext_tok_render. rewrite forallb_forall in Hp. exact (Hp b Hb).
+Qed.
+
+Definition bit_data_nonempty (b : bit) : bool :=
+  match b with BPush [] => false | BPushData _ [] => false | _ => true end.
+
+Lemma plain_render_ne b : parsed_leaf b = true -> bit_data_nonempty b = true -> ne_render false b = true.
+Proof.
+  unfold ne_render. destruct b as [c|d|c d|c p q|d]; cbn [parsed_leaf]; intros H Hd; try discriminate.
+  - cbn [bit_asm]. destruct (c =? OP_0)%N; [reflexivity|].
+    destruct (is_opcode_name c H) as [n Hn]. unfold op_text. rewrite Hn. apply opcode_name_in in Hn.
+    pose proof names_clean as T. rewrite forallb_forall in T. specialize (T _ Hn). unfold clean in T. cbn [fst] in T.
+    apply andb_true_iff in T. tauto.
+  - destruct d; [discriminate | reflexivity].
+  - destruct d; [discriminate | reflexivity].
+Qed.
+
+Lemma plain_tok_render b : parsed_leaf b = true -> bit_asm false b = plain_tok (tok_of_bit b).
+Proof. destruct b as [c|d|c d|c p q|d]; cbn [parsed_leaf]; intros H; try discriminate; reflexivity. Qed.
+
+Lemma plain_rendering bs s ts :
+  from_bytes bs = Ok s -> tokenize_spec bs = TokOk ts -> forallb bit_data_nonempty (flats s) = true ->
+  to_asm false s = render_plain ts.
+Proof.
+  intros H Ht Hd. rewrite (tokenize_spec_flatten bs s ts H Ht).
+  destruct (from_bytes_facts bs s H) as [Hc Hp].
+  rewrite (render_flat false s Top Hc).
+  - unfold render_plain, flatten. rewrite map_map. f_equal.
+    apply map_ext_in. intros b Hb. apply plain_tok_render. rewrite forallb_forall in Hp. exact (Hp b Hb).
+  - rewrite forallb_forall in *. intros b Hb. apply plain_render_ne; auto.
+Qed.
+
+(* ================================================================== *)
+(* 10. totality: the text parser never panics *)
+Lemma map_tokens_no_panic l : map_tokens l <> Panic.
+Proof.
+  induction l as [|t r IH]; cbn [map_tokens]; [discriminate|].
+  pose proof (map_token_no_panic t). destruct (map_token t); cbn [bind]; try congruence.
+  destruct (map_tokens r); cbn [bind]; congruence.
+Qed.
+
+Lemma nest_no_panic : forall f m ts, nest f m ts <> Panic.
+Proof.
+  induction f as [|f IH]; intros m ts; [discriminate|].
+  cbn [nest]. destruct ts as [|x ts']; [destruct m; discriminate|].
+  assert (Hplain : forall o, (do y <- nest f m ts'; let '(bs0, t0, r') := y in Ok (o :: bs0, t0, r')) <> Panic).
+  { intros o. pose proof (IH m ts'). destruct (nest f m ts') as [[[bs' t'] r']| |]; cbn [bind]; congruence. }
+  destruct x as [c|d|c d|c p q|d]; try apply Hplain.
+  destruct (is_if c).
+  - pose proof (IH Pass ts'). destruct (nest f Pass ts') as [[[p tp] r1]| |]; try congruence.
+    destruct tp; try discriminate.
+    + pose proof (IH Fail r1). destruct (nest f Fail r1) as [[[q tq] r2]| |]; try congruence.
+      destruct tq; try discriminate.
+      pose proof (IH m r2). destruct (nest f m r2) as [[[bs' t'] r']| |]; cbn [bind]; congruence.
+    + pose proof (IH m r1). destruct (nest f m r1) as [[[bs' t'] r']| |]; cbn [bind]; congruence.
+  - destruct m, (c =? OP_ELSE)%N, (c =? OP_ENDIF)%N; try discriminate; apply Hplain.
+Qed.
+
+Lemma from_asm_no_panic s : from_asm s <> Panic.
+Proof.
+  unfold from_asm. pose proof (map_tokens_no_panic (asm_tokens s)).
+  destruct (map_tokens (asm_tokens s)) as [bits| |]; cbn [bind]; try congruence.
+  unfold nest_top. pose proof (nest_no_panic (S (length bits)) Top bits).
+  destruct (nest (S (length bits)) Top bits) as [[[b t] r]| |]; cbn [bind]; congruence.
+Qed.
+
+(* ================================================================== *)
+(* 11. the statements in terms of the specification's own definitions *)
+Lemma all_chars_ext (P Q : ascii -> bool) s : (forall c, P c = Q c) -> all_chars P s = all_chars Q s.
+Proof. intros H. induction s as [|c r IH]; cbn [all_chars]; [reflexivity | rewrite H, IH; reflexivity]. Qed.
+
+Lemma clean_token_clean t : clean_token t = clean t.
+Proof.
+  unfold clean_token, clean, nws. destruct t as [|c r]; [reflexivity|]. cbn [is_empty negb andb].
+  apply all_chars_ext. intros x. rewrite is_ws_ws_char. reflexivity.
+Qed.
+
+Lemma padded_padded_ok l : forall first, padded first l = padded_ok first l.
+Proof.
+  induction l as [|[w t] r IH]; intros first; [reflexivity|]. cbn [padded padded_ok].
+  rewrite IH, clean_token_clean, (all_chars_ext ws_char is_ws) by (intros; symmetry; apply is_ws_ws_char).
+  destruct w; reflexivity.
+Qed.
+
+Lemma whitespace_ignored_spec l e :
+  padded true l = true -> all_chars ws_char e = true ->
+  from_asm (pad_ws l e) = from_asm (join " " (map snd l)).
+Proof.
+  intros H He. apply whitespace_ignored.
+  - rewrite <- padded_padded_ok. exact H.
+  - rewrite (all_chars_ext is_ws ws_char) by apply is_ws_ws_char. exact He.
+Qed.
+
+Lemma plain_rendering_spec bs s ts :
+  from_bytes bs = Ok s -> tokenize_spec bs = TokOk ts -> forallb data_nonempty ts = true ->
+  to_asm false s = render_plain ts.
+Proof.
+  intros H Ht Hd. apply (plain_rendering bs s ts H Ht).
+  rewrite (tokenize_spec_flatten bs s ts H Ht) in Hd. unfold flatten in Hd. rewrite forallb_map in Hd.
+  eapply forallb_impl; [|exact Hd]. intros b. destruct b as [c|d|c d|c p q|d]; cbn; try reflexivity.
+  - destruct d; auto.
+  - destruct d; auto.
+Qed.
+
+Lemma from_bytes_canonical bs s : from_bytes bs = Ok s -> canonical s = true /\ no_coinbase s = true.
+Proof.
+  intros H. destruct (from_bytes_facts bs s H) as [Hc Hp]. split; [exact Hc|].
+  apply flats_leaves. eapply forallb_impl; [|exact Hp]. intros b Hb. apply parsed_leaf_wf in Hb. tauto.
+Qed.
+
+Lemma opcode_names_not_hex n c : In (n, c) opcode_table -> bytes_of_hex n = None.
+Proof.
+  intros H. pose proof names_not_hex as T. rewrite forallb_forall in T. specialize (T _ H). cbn [fst] in T.
+  destruct (bytes_of_hex n); [discriminate | reflexivity].
 Qed.
